@@ -1,6 +1,6 @@
 (* C09 — non-vacuity examples for the hypotheses of Props.v *)
 From Coq Require Import ZArith List Lia.
-From FV Require Import Lib.RustInt C09.Model C09.Proofs.
+From FV Require Import Lib.RustInt C09.Model C09.Proofs C09.Proofs2 C09.Proofs3.
 Import ListNotations.
 Open Scope Z_scope.
 
@@ -36,3 +36,31 @@ Proof. vm_compute. reflexivity. Qed.
 Example c09_empty_first_contour_refused :
   write_simple 0 {| g_bbox := (0, 0, 0, 0); g_contours := [[]; [(1, 1, true)]]; g_instr := [] |} = None.
 Proof. vm_compute. reflexivity. Qed.
+
+(* loca: 0x1FFFE is the largest offset of the short format; 0x20000 forces long; both read back *)
+Example c09_loca_boundary :
+  loca_is_long [0; 131070] = false /\ loca_is_long [0; 131072] = true /\ loca_is_long [0; 3; 8] = true
+  /\ loca_bytes [0; 131070] = [0; 0; 255; 255]
+  /\ (do es <- loca_read (loca_bytes [0; 131070]) false;; get_raw es false 1) = Some 131070
+  /\ (do es <- loca_read (loca_bytes [0; 131072]) true;; get_raw es true 1) = Some 131072.
+Proof. repeat split; vm_compute; reflexivity. Qed.
+(* Loca::new is public and only looks at the LAST offset: a non-monotone input is written short and
+   truncated (0x30000 >> 1 = 0x18000 does not fit u16) — why c09_loca_short_exact needs offsets <= last *)
+Example c09_loca_nonmonotone_truncates :
+  loca_is_long [0; 196608; 10] = false /\
+  (do es <- loca_read (loca_bytes [0; 196608; 10]) false;; get_raw es false 1) = Some 65536.
+Proof. split; vm_compute; reflexivity. Qed.
+(* builder: empty glyph, simple glyph, composite glyph, empty glyph *)
+Definition ex_comp : cglyph :=
+  {| cg_bbox := (-5, -6, 7, 8);
+     cg_comps := [ {| c_gid := 1; c_anchor := AOffset (-129) 5; c_uflags := (true, false, false, true, false); c_tr := (8192, 0, 0, 8192) |};
+                   {| c_gid := 65535; c_anchor := APoint 255 0; c_uflags := (false, true, false, false, true); c_tr := (16384, -1, 0, 16384) |} ];
+     cg_instr := [176; 1; 2] |}.
+Example c09_builder_nonvacuous :
+  exists glyf loca, build [GEmpty; GSimple ex_glyph; GComposite ex_comp; GEmpty] = Some (glyf, loca, false)
+  /\ loca = [0; 0; 48; 88; 88]
+  /\ read_glyph (firstn 40 (skipn 48 glyf)) =
+       Some (RComposite [-5; -6; 7; 8] (exp_comps (cg_comps ex_comp) HAVE_INSTR) (Some [176; 1; 2])).
+Proof. do 2 eexists. split; [vm_compute; reflexivity|]. split; vm_compute; reflexivity. Qed.
+Example c09_comp_ok_nonvacuous : Forall comp_ok (cg_comps ex_comp).
+Proof. repeat constructor; cbn; unfold u16, i16; lia. Qed.
